@@ -6,8 +6,11 @@ set -u
 PATCH=$(readlink -f "$1"); ID=$2; TIER=${3:-quick}
 S=$(mktemp -d /tmp/mut.XXXXXX)
 trap 'rm -rf "$S"' EXIT
+# a clone (so that older patches can be merged 3-way against the blobs they were made from) + the current working tree on top
+git clone -q /repo "$S" 2>/dev/null
 rsync -a --exclude .git --exclude '*.egg-info' --exclude __pycache__ /repo/ "$S"/
-( cd "$S" && git init -q . && git apply --whitespace=nowarn "$PATCH" ) || { echo "PATCH-FAILED"; exit 3; }
+( cd "$S" && { git apply --whitespace=nowarn "$PATCH" 2>/dev/null || git apply --3way --whitespace=nowarn "$PATCH" >/dev/null 2>&1; } \
+  && ! grep -rl '^<<<<<<< ' pytoniq_core >/dev/null 2>&1 ) || { echo "PATCH-FAILED"; exit 3; }
 ( cd "$S" && PYTHONPATH="$S" /venv/bin/python -m pytest -q -x -p no:cacheprovider tests >"$S/suite.log" 2>&1 ) && SUITE=pass || SUITE=fail
 [ "$SUITE" = fail ] && tail -5 "$S/suite.log"
 ( cd "$S" && PYTHONPATH="$S" /venv/bin/python -c "import pytoniq_core,sys; assert pytoniq_core.__file__.startswith('$S'), pytoniq_core.__file__" ) || echo "WARNING: scratch copy not imported"
